@@ -58,4 +58,22 @@ def bkd (args : List String) : String :=
     | _, _ => "BADARG"
   | _ => "BADARG"
 
+/-- `BKDC`: the same loop over the in-process channel transport: a datagram longer than the 1024-byte buffer is refused by the
+transport's receive (`C19.fits_recv_whole` / `recvInto`: an error, the datagram is gone), every other one arrives whole -/
+def bkdc (args : List String) : String :=
+  match args with
+  | f :: items =>
+    match parseFill f, items.mapM parseRx with
+    | some fill, some rx =>
+      if rx.any (fun r => match r with | .dgram a _ => a ≠ 0 | _ => true) then "BADARG" else
+      let rx := rx.map fun r => match r with
+        | .dgram a d => if d.length > 1024 then .recvErr else .dgram a d
+        | r => r
+      match run (rxFuel rx + 1) (Backend.new (List.replicate 1024 fill)) rx with
+      | .ok ys => joinWith " | " (ys.map (fun (p : Msg × Addr) => s!"{p.2} {showMsg p.1 0}") ++ ["END"])
+      | .err => "ERR"
+      | .panic => "PANIC"
+    | _, _ => "BADARG"
+  | _ => "BADARG"
+
 end Portus.Driver
